@@ -35,12 +35,12 @@ def IsClientId (id : Id) : Prop :=
 
 macro "tr_auto" : tactic =>
   `(tactic| (intros; first
-    | (simp_all [FMap.get_set, FMap.get_del]; done)
+    | (simp_all [FMap.get_set, FMap.get_del, ChainState.logAdd, ChainState.appWrite]; done)
     | omega
     | (left; rfl)
-    | (simp only [FMap.get_set, FMap.get_del] at *; split <;> simp_all; done)
-    | (simp only [FMap.get_set, FMap.get_del] at *; split at * <;> simp_all; done)
-    | (refine Or.inr ⟨_, by simp_all [FMap.get_set, FMap.get_del], rfl, rfl, rfl, Or.inl rfl, by simp⟩)))
+    | (simp only [FMap.get_set, FMap.get_del, ChainState.logAdd, ChainState.appWrite] at *; split <;> simp_all; done)
+    | (simp only [FMap.get_set, FMap.get_del, ChainState.logAdd, ChainState.appWrite] at *; split at * <;> simp_all; done)
+    | (refine Or.inr ⟨_, by simp_all [FMap.get_set, FMap.get_del, ChainState.logAdd, ChainState.appWrite], rfl, rfl, rfl, Or.inl rfl, by simp⟩)))
 
 structure Tr (s s' : ChainState) : Prop where
   log : s'.log = s.log ∨ ∃ e, s'.log = s.log ++ [e] ∧ EvOK s s' e
@@ -71,9 +71,9 @@ structure Tr (s s' : ChainState) : Prop where
       id = fmtChan s.nextChanSeq ∨ (s.cpV2.get id = none ∧ s.creator.get id ≠ none) := by tr_auto
   -- commitments are created only by sends, at the current send counter
   commitV1New : ∀ p c q, s.commitV1.get (p, c, q) = none → s'.commitV1.get (p, c, q) ≠ none →
-      s.nextSend.get c = some q ∧ s'.nextSend.get c = some (q + 1) := by tr_auto
+      s.nextSend.get c = some q ∧ s'.nextSend.get c = some (q + 1) ∧ s.chan.get (p, c) ≠ none := by tr_auto
   commitV2New : ∀ c q, s.commitV2.get (c, q) = none → s'.commitV2.get (c, q) ≠ none →
-      s.nextSend.get c = some q ∧ s'.nextSend.get c = some (q + 1) := by tr_auto
+      s.nextSend.get c = some q ∧ s'.nextSend.get c = some (q + 1) ∧ s.cpV2.get c ≠ none := by tr_auto
   -- v2 counterparties / clients
   cpV2 : ∀ id, s.cpV2.get id ≠ none → s'.cpV2.get id ≠ none := by tr_auto
   cpV2New : ∀ id, s.cpV2.get id = none → s'.cpV2.get id ≠ none →
